@@ -582,3 +582,6 @@ def run(ctx):
     rule_ambient_py(ctx, px)
     rule_order(ctx, px, ts)
     rule_sort_keys(ctx, px)
+    from checks import C10
+
+    C10.rule_memo(ctx, px, R="R-C07-MEMO")  # output must be a function of the inputs within one process as well
